@@ -8,13 +8,15 @@ From GolemGen Require Import GenHseq GenOptics GenShape.
 Import ListNotations.
 Open Scope res_scope.
 
-Fixpoint build (zero : value) (o : cop) : res optic :=
+(* BiMap(lens, fmap, cmap) / Getter(lens, f) / Setter(lens, f) over a Lens[S, A], exposing B: fmap : A -> B produces
+   sizeof B bytes, cmap : B -> A produces sizeof A bytes (BiMapI: func(a A) B { return B(a) }, func(b B) A { return A(b) }) *)
+Fixpoint build (o : cop) : res optic :=
   match o with
   | CField T A attr => ForProduct1 T A attr
-  | CJoin a b => x <- build zero a ;; y <- build zero b ;; Ok (Join x y)
-  | CConv 0%N x code => y <- build zero x ;; Ok (BiMap y (conv code) (conv code))
-  | CConv 1%N x code => y <- build zero x ;; Ok (Getter y (conv code))
-  | CConv _ x code => y <- build zero x ;; Ok (Setter y (conv code) zero)
+  | CJoin a b => x <- build a ;; y <- build b ;; Ok (Join x y)
+  | CConv 0%N x code B => y <- build x ;; Ok (BiMap y (conv code (sizeof B)) (conv code (sizeof (cop_ty x))))
+  | CConv 1%N x code B => y <- build x ;; Ok (Getter y (conv code (sizeof B)))
+  | CConv _ x code B => y <- build x ;; Ok (Setter y (conv code (sizeof (cop_ty x))) (repeat 0%Z (sizeof B)))
   end.
 
 Definition model_off (sh : shape) (p : list nat) : nat :=
@@ -26,11 +28,11 @@ Definition morph_agrees (sh : shape) (isos : list (option ciso)) (before_t befor
   let m0 := sh_before sh in
   let built := mapM (fun oi => match oi with
                                | None => Ok None
-                               | Some i => a <- build [] (ci_sa i) ;; b <- build [] (ci_ta i) ;; Ok (Some (mkIso a b))
+                               | Some i => a <- build (ci_sa i) ;; b <- build (ci_ta i) ;; Ok (Some (mkIso a b))
                                end) isos in
   let is := somes isos in
-  let sm := arena_mask (List.length m0) (map (fun i => (model_off sh (ci_spath i), ci_A i)) is) in
-  let tm := arena_mask (List.length before_t) (map (fun i => (model_off sh (ci_tpath i), ci_A i)) is) in
+  let sm := arena_mask (List.length m0) (map (fun i => (model_off sh (ci_spath i), ci_sA i)) is) in
+  let tm := arena_mask (List.length before_t) (map (fun i => (model_off sh (ci_tpath i), ci_tA i)) is) in
   match built with
   | Panic => false                                   (* the construction did not panic in the real code *)
   | Ok seq =>
@@ -57,13 +59,13 @@ Definition agrees (c : case) : bool :=
   let s := sh_base sh in
   match c_req c, c_obs c with
   | RLens o kind code B fpath outer, OLens ob =>
-      match build (repeat 0%Z (sizeof B)) o with
+      match build o with
       | Panic => false
       | Ok op =>
-          let foci := match outer with Some (p, t) => [(model_off sh p, t)] | None => [(model_off sh fpath, B)] end in
+          let foci := match outer with Some (p, t) => [(model_off sh p, t)] | None => [(model_off sh fpath, cop_focus_ty o)] end in
           lens_agrees sh B (fun m => oget op m s) (fun m v => oput op m s v) foci ob
       end
-  | RLens o _ _ B _ _, OPanic => negb (is_ok (build (repeat 0%Z (sizeof B)) o))
+  | RLens o _ _ B _ _, OPanic => negb (is_ok (build o))
   | RShape tys attr, OLenses obs => Derive.agrees (DeriveObs.mk sh VShape false tys attr [] (DLenses obs))
   | RShape tys attr, OPanic => Derive.agrees (DeriveObs.mk sh VShape false tys attr [] DPanic)
   | RMorph isos, OMorph bt bs2 pf pi ds1 dt1 ds2 dt2 => morph_agrees sh isos bt bs2 pf pi ds1 dt1 ds2 dt2
